@@ -357,17 +357,20 @@ def expandNodePorts (routes : AMap Nat Route) (eps : List Ep) : List (Nat × Lis
 
 def podNPIP : Nat := 0xffffffff
 
-/-- body of the `for sname, sinfo := range state.SvcMap` loop of `apply`. -/
-def applyService (s : Syncer) (st : KState) (hint : AMap SvcKey Nat) (b : Bld) (sname : String) (svc : Svc) : Bld :=
+/-- the endpoints `apply` hands to `applySvc` for a service: topology-aware routing, else traffic
+distribution, and the API-server last-known-good fallback. -/
+def epsFor (s : Syncer) (st : KState) (sname : String) (svc : Svc) : List Ep :=
   let all := (st.eps.get sname).getD []
-  let (eps, applied) := filterTopo all svc.topoMode st.zone
-  let eps := if applied then eps else filterTD all st.host st.zone
-  let eps :=
-    if isApiServer sname && (eps.filter (·.ready)).isEmpty then
-      let fb := apiFallback s.prevEps sname
-      if !fb.isEmpty then fb else eps
-    else eps
-  let b := applySvc s.prevSvc hint b ⟨sname, .prim⟩ svc eps
+  let r := filterTopo all svc.topoMode st.zone
+  let eps := if r.2 then r.1 else filterTD all st.host st.zone
+  if isApiServer sname && (eps.filter (·.ready)).isEmpty then
+    let fb := apiFallback s.prevEps sname
+    if !fb.isEmpty then fb else eps
+  else eps
+
+/-- the derived frontends of one service: LoadBalancer VIPs, external IPs, node ports and the
+per-node NodePortRemote expansion (loop body of `apply` after the primary `applySvc`). -/
+def applyRest (s : Syncer) (hint : AMap SvcKey Nat) (b : Bld) (sname : String) (svc : Svc) (eps : List Ep) : Bld :=
   let b := svc.lbVIPs.foldl (fun b ip => applyDerived b sname .lb { svc with clusterIP := ip }) b
   let b := svc.extIPs.foldl (fun b ip => applyDerived b sname .ext { svc with clusterIP := ip }) b
   if svc.nodePort != 0 then
@@ -379,6 +382,11 @@ def applyService (s : Syncer) (st : KState) (hint : AMap SvcKey Nat) (b : Bld) (
         applySvc s.prevSvc hint b ⟨sname, .npRemote g.1⟩ { svc with clusterIP := g.1, port := svc.nodePort } g.2) b
     else b
   else b
+
+/-- body of the `for sname, sinfo := range state.SvcMap` loop of `apply`. -/
+def applyService (s : Syncer) (st : KState) (hint : AMap SvcKey Nat) (b : Bld) (sname : String) (svc : Svc) : Bld :=
+  applyRest s hint (applySvc s.prevSvc hint b ⟨sname, .prim⟩ svc (epsFor s st sname svc)) sname svc
+    (epsFor s st sname svc)
 
 /-- the desired maps and bookkeeping computed by `apply` before anything is written. -/
 def buildDesired (s : Syncer) (st : KState) (hint : AMap SvcKey Nat) : Bld :=
